@@ -39,11 +39,19 @@ func verifIslandFont16() *Font {
 		FeatureList: []*gtab.Feature{{Tag: "liga", Lookups: []gtab.LookupIndex{0}}},
 		LookupList:  gtab.LookupList{{Meta: &gtab.LookupMetaInfo{LookupType: 4}, Subtables: []gtab.Subtable{&gtab.Gsub4_1{Cov: coverage.Table{1: 0}, Repl: [][]gtab.Ligature{{lig}}}}}},
 	}
+	// a required feature that lists its lookups out of order and twice (both are legal in a font file)
 	f.Gpos = &gtab.Info{
 		ScriptList:  map[language.Tag]*gtab.Features{language.MustParse("und-Zzzz"): {Required: 0, Optional: []gtab.FeatureIndex{}}},
-		FeatureList: []*gtab.Feature{{Tag: "kern", Lookups: []gtab.LookupIndex{0}}},
-		LookupList:  gtab.LookupList{{Meta: &gtab.LookupMetaInfo{LookupType: 2}, Subtables: []gtab.Subtable{gtab.Gpos2_1{glyph.Pair{Left: 1, Right: 2}: &gtab.PairAdjust{First: &gtab.GposValueRecord{XAdvance: -40}}}}}},
+		FeatureList: []*gtab.Feature{{Tag: "kern", Lookups: []gtab.LookupIndex{1, 0, 1}}},
+		LookupList: gtab.LookupList{
+			{Meta: &gtab.LookupMetaInfo{LookupType: 2}, Subtables: []gtab.Subtable{gtab.Gpos2_1{glyph.Pair{Left: 1, Right: 2}: &gtab.PairAdjust{First: &gtab.GposValueRecord{XAdvance: -40}}}}},
+			{Meta: &gtab.LookupMetaInfo{LookupType: 1}, Subtables: []gtab.Subtable{&gtab.Gpos1_1{Cov: coverage.Table{4: 0}, Adjust: &gtab.GposValueRecord{XAdvance: 5}}}},
+		},
 	}
+	// raw TrueType tables as a font reader delivers them: slices with spare capacity
+	raw := make([]byte, 5, 16)
+	copy(raw, []byte{1, 2, 3, 4, 5})
+	f.Outlines.(*glyf.Outlines).Tables = map[string][]byte{"cvt ": raw, "prep": make([]byte, 2, 8)}
 	return f
 }
 
